@@ -76,9 +76,39 @@ func (f fails) add(key, format string, a ...interface{}) {
 
 var oracleKeys = map[string][]string{
 	"docx": {"body-order", "table-after-multipara-table", "inline-order", "hyperlink-text-lost", "ins-text-lost", "sdt-text-lost",
-		"text-lost", "heading-level", "list-nesting", "grid-cell", "merged-cell", "header-leak"},
+		"text-lost", "heading-level", "style-chain-heading-level", "list-nesting", "grid-cell", "merged-cell", "header-leak"},
 	"odt": {"body-order", "span-text-order", "inline-element-lost", "link-text-lost", "nested-span-text-lost", "text-lost",
-		"heading-level", "list-nesting", "grid-cell", "merged-cell", "header-leak"},
+		"heading-level", "style-chain-heading-level", "list-nesting", "grid-cell", "merged-cell", "header-leak"},
+}
+
+// headingKey: a heading written in a derived style of the document's style family
+// (its level is what the style's own definition chain says, whichever other styles
+// of the family were used before it) fails under a key of its own.
+func headingKey(p *lpara) string {
+	if p.Via == "family" {
+		return "style-chain-heading-level"
+	}
+	return "heading-level"
+}
+
+// chainNote describes the definition chain of a family style for the failure detail.
+func (d *ldoc) chainNote(p *lpara) string {
+	if p.Via != "family" || d.Fam == nil {
+		return ""
+	}
+	var b strings.Builder
+	b.WriteString("; definition chain:")
+	for s := d.Fam.get(p.Fam); s != nil; s = d.Fam.get(s.Parent) {
+		switch {
+		case s.Parent == "":
+			fmt.Fprintf(&b, " %s (root, level %d)", s.ID, s.Level)
+		case s.Own > 0:
+			fmt.Fprintf(&b, " %s (own level %d) <-", s.ID, s.Own)
+		default:
+			fmt.Fprintf(&b, " %s (inherits) <-", s.ID)
+		}
+	}
+	return b.String()
 }
 
 func lostKey(format, wrap string) string {
@@ -203,7 +233,7 @@ func evaluate(d *ldoc, out outputs) fails {
 		switch p.Kind {
 		case "h":
 			if e.Kind != "h" || e.Level != p.Level {
-				f.add("heading-level", "Document(): block %d (heading level %d via %s, style %q) is %s level %d", bi, p.Level, p.Via, p.Style, e.Kind, e.Level)
+				f.add(headingKey(p), "Document(): block %d (heading level %d via %s, style %q) is %s level %d%s", bi, p.Level, p.Via, p.Style, e.Kind, e.Level, d.chainNote(p))
 			}
 		case "p":
 			if p.Via != "bigbold" && e.Kind != "p" {
@@ -275,7 +305,7 @@ func evaluate(d *ldoc, out outputs) fails {
 						lvl = 6
 					}
 					if !strings.Contains(padded, "\n"+strings.Repeat("#", lvl)+" "+p.wantText()+"\n") {
-						f.add("heading-level", "%s: block %d not rendered as a level-%d heading line (via %s, style %q)", o.name, bi, lvl, p.Via, p.Style)
+						f.add(headingKey(p), "%s: block %d not rendered as a level-%d heading line (via %s, style %q)%s", o.name, bi, lvl, p.Via, p.Style, d.chainNote(p))
 					}
 				case "li":
 					line := lineOf(o.s, toks[0].Tok)
